@@ -1,6 +1,6 @@
 (* C07 -- Mutex and RwLock: exclusion, blocking, hand-over ordering (local lemmas; the global invariant is checked per execution).
    Statements restated in full, closed with exact, assumptions printed. *)
-Require Import LV.Base LV.VV LV.VVFacts LV.Path LV.PathSpec LV.Prog LV.Objects LV.Exec LV.Atomic LV.Ops LV.Check LV.Ref LV.Outcome LV.Witness LV.SyncFacts LV.CheckFacts.
+Require Import LV.Base LV.VV LV.VVFacts LV.Path LV.PathSpec LV.Prog LV.Objects LV.Exec LV.Atomic LV.Ops LV.Check LV.Ref LV.Outcome LV.Witness LV.SyncFacts LV.CheckFacts LV.ExecFacts LV.SyncMono.
 
 (* try_lock (and the post-action of lock) succeeds exactly when the mutex is free at that step *)
 Theorem C07_try_lock_exact :
@@ -98,3 +98,45 @@ Theorem C07_rw_read_handover :
        post_acquire_write e2 b r = (e3, true) -> vle (caus_of e a) (caus_of e3 b).
 Proof. exact rw_read_handover. Qed.
 Print Assumptions C07_rw_read_handover.
+
+(* GLOBAL: after a release, over ANY number of micro-steps of any threads (steps), the next acquisition of the free mutex succeeds and sees everything before the release *)
+Theorem C07_mutex_handover_global :
+  forall (e : exec) (a m : nat) (s : mutex_state) (e2 : exec) (b : nat) (s2 : mutex_state),
+       get_mutex e m = Some s ->
+       e_active e <> None ->
+       steps (release_lock e a m) e2 ->
+       get_mutex e2 m = Some s2 ->
+       mx_lock s2 = None ->
+       b < length (e_threads e2) ->
+       snd (post_acquire e2 b m) = true /\
+       vle (caus_of e a) (caus_of (fst (post_acquire e2 b m)) b).
+Proof. exact mutex_handover_global_ok. Qed.
+Print Assumptions C07_mutex_handover_global.
+
+(* GLOBAL: the same for an RwLock write guard, towards any later read or write acquisition *)
+Theorem C07_rw_write_handover_global :
+  forall (e : exec) (a r : nat) (e1 e2 : exec) (b : nat),
+       release_write e a r = MOk e1 ->
+       steps e1 e2 ->
+       b < length (e_threads e2) ->
+       (forall e3 : exec,
+        post_acquire_write e2 b r = (e3, true) -> vle (caus_of e a) (caus_of e3 b)) /\
+       (forall e3 : exec, post_acquire_read e2 b r = (e3, true) -> vle (caus_of e a) (caus_of e3 b)).
+Proof. exact rwlock_write_handover_global. Qed.
+Print Assumptions C07_rw_write_handover_global.
+
+(* GLOBAL: a read release happens-before any later write acquisition *)
+Theorem C07_rw_read_handover_global :
+  forall (e : exec) (a r : nat) (e1 e2 : exec) (b : nat) (e3 : exec),
+       release_read e a r = MOk e1 ->
+       steps e1 e2 ->
+       b < length (e_threads e2) ->
+       post_acquire_write e2 b r = (e3, true) -> vle (caus_of e a) (caus_of e3 b).
+Proof. exact rwlock_read_handover_global. Qed.
+Print Assumptions C07_rw_read_handover_global.
+
+(* every run of the model is monotone: thread clocks and object views only grow, objects keep their kind *)
+Theorem C07_run_monotone :
+  forall (fuel : nat) (e : exec), mono e (fst (run fuel e)).
+Proof. exact run_mono. Qed.
+Print Assumptions C07_run_monotone.
